@@ -624,7 +624,13 @@ class Session:
             if quick:
                 r = b.quick_estimate()
             else:
-                r = b.estimate(run_bootstrap=bool(boot))
+                # buggify: the estimation is asked to recycle earlier results; no result file is ever written in this world, so
+                # it is an ordinary estimation (which starts from the saved values like any other)
+                if (len(script.get('pts', [])) + boot) % 3 == 1:
+                    self.ctx.probe('estimation asked to recycle results that do not exist')
+                    r = b.estimate(recycle=True, run_bootstrap=bool(boot))
+                else:
+                    r = b.estimate(run_bootstrap=bool(boot))
         except OSError as e:
             if ctx.fs.fired.get('enospc') or ctx.fs.fired.get('eio'):
                 ctx.log('ESTIMATE', 'oserror-after-injected-fault')
